@@ -25,6 +25,16 @@ CLAIMED = {
   note="Trusted as C17, plus: seek/read_exact semantics modelled by a partial read; buffer allocation for hostile copy lengths is not modelled (observed under ulimit -v in the CLI runs).",
   technique="Coq proof (case analysis on the patch outcome for arbitrary input) + checked correspondence",
   ref="5.4"),
+ "C03": dict(
+  text="Coq theorems over ANY number of server processes, ANY request programs and EVERY schedule of their file-system steps (kills included), by induction over the schedule: the live tree equals the one-at-a-time replay of the commit log through the CAS-map specification, every logged reply is the specification's reply, the log is ordered by strictly increasing time and every reply a client received belongs to a logged operation that took effect between invocation and response (real-time order theorem); specification lemmas for uncommitted/committed writes and 'nothing vanishes except by a logged operation on that path'. Tie: real `copia serve` processes under an LD_PRELOAD gate-mode scheduler replay generated and directed schedules; replies, final tree and the tree after every essential step are compared with the extracted model; a brute-force linearizability checker is the search oracle.",
+  note="Trusted as C17, plus: the kernel semantics assumed by Model/Hub.v (atomic libc calls, atomic rename, flock mutual exclusion released on death), flat path names (no file/directory clash), the shim and controller; concurrent List is not modelled (List only in quiescent states).",
+  technique="Coq proof (simulation invariant by induction over arbitrary schedules) + checked correspondence under a controlled scheduler",
+  ref="5.16"),
+ "C10": dict(
+  text="Coq theorems over every schedule with kills: after EVERY event each live path holds an initial content or the complete body of ONE Put of the clients' programs whose bytes match its declared hash and length; every Put in the commit log was verified and the live tree is exactly the replay of that log (a bad Put never takes effect); a Get reply is one content. Tie: the C03 scheduler runs with kill points and wrong-hash/short-length Puts; after every event the real tree is checked by a BLAKE3 oracle and compared with the model; Gets are parked between their opens in the directed corpus.",
+  note="Trusted as C03. Durability across power loss is not modelled (process kills are executed for real).",
+  technique="Coq proof (invariant over all schedules and kill points) + checked correspondence under a controlled scheduler",
+  ref="5.17"),
 }
 
 NA_REASON = "check not built yet in this session; see DESIGN.md section 5 for the planned model and theorems"
